@@ -56,6 +56,10 @@ def r11_1(cx):
 
     def enc_len(e):
         e = e.strip()
+        # the length of the current value: an item of elements.iter().map(|x| x.1.rough_tlv_len()).enumerate(), or
+        # rough_tlv_len() called on the value of an item of elements.iter().enumerate()
+        if is_call(e, 'ToRoughTLV::rough_tlv_len') and e.has_call('Iterator>::next') and e.has_call('enumerate'):
+            return field_path(e.args[0])[1][-1:] == ['1']
         return e.kind == 'proj' and e.has_call('Iterator>::next') and e.has_call('enumerate')
     preds = {
         'TooManyElements': (lambda r: r[0] == 'Gt' and lens(r[1]) and _is_i32max(r[2]), 'elements.len() > i32::MAX'),
